@@ -33,6 +33,8 @@ SM == CMatInt(<< <<<<0,0>>, <<1,0>>>>, <<<<0,0>>, <<0,0>>>> >>)        \* |0><1|
 Jumps(n) == CASE n = "none" -> <<>>
               [] n = "damping" -> <<CMatScale(R(3, 5), SM)>>
               [] n = "two" -> <<CMatScale(R(1, 2), SM), CMatScale(R(1, 3), CMatInt(P_Z))>>
+              \* jump operators WITH a trace (an identity component): D[c' + a I] = D[c'] - i[H_a, .], H_a = (i/2)(a* c' - a c'^dagger)
+              [] n = "traceful" -> << << <<CR(1, 4), CR(1, 2)>>, <<CZero, CR(1, 4)>> >>, << <<<<RZero, R(1, 3)>>, CZero>>, <<CR(1, 3), CZero>> >> >>
               [] n = "four" -> <<CMatScale(R(1, 2), SM), CMatScale(R(1, 2), Dagger(SM)), CMatScale(R(1, 4), CMatInt(P_X)), << <<CR(1, 3), <<RZero, R(1, 3)>>>>, <<CZero, CR(-1, 3)>> >> >>
 
 IdxR(k) == <<((k - 1) \div 2) + 1, ((k - 1) % 2) + 1>>
